@@ -4,7 +4,8 @@ from .. import syscorr
 PROP = "C04"
 LEAN_TARGETS = ["Eliot.Properties.C04"]
 AUDIT = "Eliot/Audit/C04.lean"
-SKELETON_TARGETS = {"Sys.C04.skeleton_E6": "Eliot.Properties.C04Skel"}
+SKELETON_TARGETS = {"Sys.C04.skeleton_E6": "Eliot.Properties.C04Skel",
+                    "Sys.UuidSkel.skeleton_E11_task_uuids_are_uuid4": "Eliot.Properties.UuidSkel"}
 THEOREMS = ["Sys.C04.execS_good", "Sys.C04.execB_good", "Sys.C04.exec_restores_ctx", "Sys.C04.program_ends_contextless",
             "Sys.C04.inside_is_current", "Sys.C04.probe_in_body_sees_action", "Sys.C04.start_task_fresh",
             "Sys.C04.contextless_msg_own_task"]
@@ -115,6 +116,8 @@ def faulty_exit_case(ctx, i):
 
 
 def run(ctx):
+    from .. import uuidfresh
+    uuidfresh.check(ctx)
     for i in range(ctx.budget(150, 3000)):
         problems, ncalls = faulty_exit_case(ctx, i)
         ctx.case({"faulty_exit": i, "seed": ctx.seed}, nontrivial=ncalls >= 3, tags=["faulty-exit"], sample=(i < 1))
@@ -126,6 +129,9 @@ def run(ctx):
 
 
 def replay(ctx, obj):
+    if (obj.get("case") or {}).get("kind") == "uuid-fresh":
+        from .. import uuidfresh
+        return uuidfresh.check(ctx, [obj["case"]["scenario"]])
     from .. import sysinterp
     case = obj["case"]
     if "faulty_exit" in case:
